@@ -17,6 +17,8 @@ fn run_case(line: &str) -> String {
       "codec_enc" => codec::codec_enc(&mut t),
       "codec_dec" => codec::codec_dec(&mut t),
       "rope" => rope::rope_case(&mut t),
+      "tree" => tree::tree_case(&line_owned),
+      "rhist" => hist::rhist_case(&mut t),
       k => panic!("unknown case kind {}", k),
     }
   });
